@@ -72,6 +72,8 @@ def plan(tier, seed):
         descs.append({"kind": "pairs", "seed": seed, "batch": b, "n": nb})
     for b in range(4 if tier == "quick" else 16):
         descs.append({"kind": "large", "seed": seed, "batch": b})
+    for b in range(4 if tier == "quick" else 24):
+        descs.append({"kind": "alias", "seed": seed, "batch": b, "n": 60})
     return descs
 
 
@@ -711,8 +713,105 @@ def run_large(desc):
                     sample={"kind": "large", "size": n, "families": [b[0] for b in builders]} if desc["batch"] == 1 else None)
 
 
+def run_alias(desc):
+    """Object life cycles: (1) a READ-ONLY array that shares memory with a writeable one (a view, a broadcast) - the key of the
+    same view object must follow the contents after the base was written to; (2) unhashable dataclass instances that differ
+    only in the TYPE of something they hold (two dataclasses with equal field names, or a dict look-alike)."""
+    import numpy as np
+    from pipefunc.cache import memoize, to_hashable
+
+    v = VV()
+    rng = random.Random(f"c15/{desc['seed']}/alias/{desc['batch']}")
+    def views(base):
+        a = base.view(); a.setflags(write=False)
+        yield "view", a
+        b = base[:]; b.setflags(write=False)
+        yield "full-slice", b
+        yield "broadcast", np.broadcast_to(base, (2,) + base.shape)
+        if base.ndim == 1 and base.size >= 4:
+            c = base[::2]; c.setflags(write=False)
+            yield "strided", c
+        if base.ndim == 1 and base.size % 2 == 0:
+            d = base.reshape(2, -1); d.setflags(write=False)
+            yield "reshaped", d
+
+    keys = []
+    for _ in range(desc["n"]):
+        dt = rng.choice(["int64", "float64", "uint8", "bool", "<U4", "int32"])
+        n = rng.choice([2, 3, 4, 6, 8, 16, 1024, 4096])
+        form = rng.randrange(5)
+        base = (np.arange(n) % 5).astype(dt) if dt != "<U4" else np.array([f"s{i % 5}" for i in range(n)], dtype=dt)
+        vs = list(views(base))
+        name, view = vs[form % len(vs)]
+        pos = 0  # (element 0 is part of every view form above)
+        w = dict(dtype=dt, size=n, view=name)
+        calls = []
+
+        @memoize()
+        def probe(x, calls=calls):  # (a memo of its own: equal contents of an earlier array would be a legitimate hit)
+            calls.append(1)
+            return len(calls)
+        try:
+            with warnings.catch_warnings():
+                warnings.simplefilter("ignore")
+                k1 = to_hashable(view)
+                r1 = probe(view)
+                base[pos] = (not base[pos]) if dt == "bool" else "zz" if dt == "<U4" else base[pos] + 1
+                k2 = to_hashable(view)           # the SAME (still read-only) object, other contents
+                kc = to_hashable(np.array(view))  # an independent writeable array with the current contents
+                n_before = len(calls)
+                r2 = probe(view)
+        except Exception as e:  # noqa: BLE001
+            v.bad(exc_sig(e, f"alias:{name}"), f"to_hashable / memoize of a read-only {name} raised {exc_msg(e)}", **w)
+            continue
+        v.count("readonly_views_rekeyed_after_base_write")
+        v.count(f"readonly_view:{name}")
+        keys.append(f"alias|{dt}|{n}|{name}")
+        if not keys_equal(k2, kc)[0]:
+            v.bad(f"unequal-keys-for-equal/read-only-{name}-after-base-write", f"read-only {name} of a written-to {dt} array and an equal independent "
+                  "array get different keys", **w)
+        if keys_equal(k1, k2)[0]:
+            v.bad(f"equal-keys-for-unequal/read-only-{name}-after-base-write", f"key of a read-only {name} unchanged although the {dt} array it views "
+                  f"was written to", **w)
+        if r2 == r1 or len(calls) == n_before:
+            v.bad(f"stale-hit/read-only-{name}-after-base-write", f"memoize returned the result stored for the OLD contents of a read-only {name}", **w)
+    # (2) dataclasses
+    payloads = [20.0, 3, (1, 2), 0, -1.5]
+    for _ in range(desc["n"]):
+        pay = rng.choice(payloads)
+        wrap = rng.choice(["direct", "list", "tuple", "dict", "nested"])
+
+        def hold(x, wrap=wrap):
+            return {"direct": x, "list": [x], "tuple": (x, 1), "dict": {"k": x}, "nested": M.DOuter("in", x)}[wrap]
+        variants = [("DCa", M.DOuter("s1", hold(M.DCa(pay)))), ("DCb", M.DOuter("s1", hold(M.DCb(pay)))),
+                    ("dict", M.DOuter("s1", hold({"value": pay})))]
+        w = dict(payload=repr(pay), held=wrap)
+        try:
+            with warnings.catch_warnings():
+                warnings.simplefilter("ignore")
+                ks = [(nm, to_hashable(x)) for nm, x in variants]
+                k_again = to_hashable(M.DOuter("s1", hold(M.DCa(pay))))
+                for _, k in ks:
+                    hash(k)
+        except Exception as e:  # noqa: BLE001
+            v.bad(exc_sig(e, "alias:dataclass"), f"to_hashable of an unhashable dataclass raised {exc_msg(e)}", **w)
+            continue
+        v.count("dataclass_look_alike_triples")
+        keys.append(f"alias|dataclass|{wrap}|{type(pay).__name__}")
+        for x in range(3):
+            for y in range(x + 1, 3):
+                if keys_equal(ks[x][1], ks[y][1])[0]:
+                    v.bad(f"equal-keys-for-unequal/dataclass-holding-{ks[x][0]}-vs-{ks[y][0]}", f"unequal dataclass instances (they hold a {ks[x][0]} / "
+                          f"a {ks[y][0]} with equal fields, {wrap}) get the same key", **w)
+        if not isinstance(pay, tuple) and not keys_equal(ks[0][1], k_again)[0]:
+            v.bad("unequal-keys-for-equal/dataclass", "two equal dataclass instances built the same way get different keys", **w)
+    return v.result(keys=keys, evaluations=2 * desc["n"], sample={"kind": "alias"} if desc["batch"] == 0 else None)
+
+
 def run_case(desc):
     warnings.simplefilter("ignore")
+    if desc["kind"] == "alias":
+        return run_alias(desc)
     if desc["kind"] == "large":
         return run_large(desc)
     if desc["kind"] == "pairs":
@@ -735,6 +834,8 @@ def finalize(agg, tier, seed):
         if c.get(k, 0) < n:
             floors.append(f"{k}={c.get(k, 0)} (< {n})")
 
+    need("readonly_views_rekeyed_after_base_write", 200 if q else 1200)
+    need("dataclass_look_alike_triples", 200 if q else 1200)
     need("pairs_eq", 15000 if q else 300000)
     need("pairs_ne", 20000 if q else 450000)
     need("keys_hashed", 6000 if q else 100000)
